@@ -26,7 +26,7 @@
      The result is written as GenBinderModes.v into the run's build dir.
   2. *theorems*: coq/dyn/C10/C10Modes.v is compiled against GenBinderModes.v and GenBindingMatrix.v (the latter is
      C10's reflected matrix; written here with C10's own writer when this run has not produced it yet).
-  3. *shell theorems*: Props/C10Shell.v is re-checked (Print Assumptions of its 28 theorems), coq/dyn/C10/C10Shell.v
+  3. *shell theorems*: Props/C10Shell.v is re-checked (Print Assumptions of its 29 theorems), coq/dyn/C10/C10Shell.v
      (the headline theorems instantiated with the reflected matrix) is compiled.
   4. *correspondence* `bind-shell`: bind / wrap / bind over wrap / two wrap layers on functions, bound methods, class
      methods, callable instances and classes (under bind), and wrap(cls) on chains of 2-3 classes with or without an
@@ -631,7 +631,7 @@ PROPS = [("Props/C10Shell.v", [
     "C10S_api_frame_accepts", "C10S_api_frame_rejects", "C10S_py_bind_shape", "C10S_init_self_untouched",
     "C10S_twice", "C10S_twice_defined", "C10S_idempotent_layers", "C10S_wrap_class_adds_layer",
     "C10S_wrap_class_other", "C10S_wrap_order_inherited", "C10S_wrap_order_own_init", "C10S_wraps_meta",
-    "C10S_wraps_dict", "C10S_pinned_is_shell", "C10S_wrap_pinned_hijacked", "C10S_bind_pinned_self_refused",
+    "C10S_wraps_dict", "C10S_cache_own_binding", "C10S_pinned_is_shell", "C10S_wrap_pinned_hijacked", "C10S_bind_pinned_self_refused",
     "C10S_refuted_reserved_wrap_pinned", "C10S_refuted_reserved_bind_pinned", "C10S_refuted_double_conversion"])]
 SHELL_THEOREMS = ["C10_shell_matrix_ok", "C10_bind_converts", "C10_wrap_converts", "C10_frame_accepts",
                   "C10_frame_rejects"]
@@ -1206,6 +1206,12 @@ def shell_streams(run: lib.Run):
     run.record_corr("bind-shell", len(allc), mism, nontriv, dist)
     if allc:
         run.samples.append({k: v for k, v in allc[0].items() if k != "source"})
+    cases4, coq4, dist4 = cache_cases(run, run.budget(120, 1200))
+    bad4 = eval_stream(run, "shell_cache", "cache_case", "cache_case_ok", coq4)
+    if bad4 and coq4[bad4[0]] is not None:
+        cases4[bad4[0]]["model"] = model_answer(run, None, "cache_case_model", coq4[bad4[0]])
+    run.record_corr("binding-cache", len(cases4), [cases4[i] for i in bad4],
+                    len({json.dumps([c["def"], c["history"], c.get("asked")]) for c in cases4}), dist4)
     cases3, coq3, dist3 = meta_cases()
     bad3 = eval_stream(run, "shell_meta", "meta_case", "meta_case_ok", coq3)
     run.record_corr("wrap-meta", len(cases3), [cases3[i] for i in bad3], len(cases3), dist3)
@@ -1385,13 +1391,206 @@ def search_reserved(run) -> list:
     return list(best.values())
 
 
+# ==================================================================================
+# 4. one def reached through different callables, bound / wrapped in one process (no cache clearing in between)
+# ==================================================================================
+
+PATHS = ["func", "bound", "bound-again", "bound-other", "cm", "cm-inst", "cm-func", "sm", "sm-inst"]
+
+
+def _paths_source(params_src: str, ret: str) -> str:
+    """class A with the same parameter list as method m, class method cm, static method sm"""
+    sep = ", " if params_src else ""
+    return ("class A:\n"
+            f"    def m(self{sep}{params_src}):\n        return {ret}\n"
+            f"    @classmethod\n    def cm(cls{sep}{params_src}):\n        return {ret}\n"
+            f"    @staticmethod\n    def sm({params_src}):\n        return {ret}\n")
+
+
+def _access(ns, insts, path):
+    A = ns["A"]
+    return {"func": lambda: A.m, "bound": lambda: insts[0].m, "bound-again": lambda: insts[0].m,
+            "bound-other": lambda: insts[1].m, "cm": lambda: A.cm, "cm-inst": lambda: insts[0].cm,
+            "cm-func": lambda: A.__dict__["cm"].__func__, "sm": lambda: A.sm, "sm-inst": lambda: insts[0].sm}[path]()
+
+
+def _has_first(path) -> bool:      # the callable's own signature starts with self / cls
+    return path in ("func", "cm-func")
+
+
+def cache_cases(run, n_hist):
+    """stream binding-cache: after a history of _get_binding calls over the access paths of one class, the table each
+    callable gets = Binding.get_binding of ITS OWN signature (Model: binding_after; keys = classes of == on the callables)"""
+    import c10
+    from typelib import binding
+    rng = run.rng
+    shapes = [s for s in c10.sig_shapes(4)]
+    cases, coq, dist = [], [], {}
+    for hi in range(n_hist):
+        sig = shift_sig(c10.make_sig(rng.choice(shapes), rng, all_annotated=True), 1)
+        params = def_source(sig, "x", False, "ret").split("\n")[0][len("def x("):-2]
+        src = "".join(f"class T{i}(int): pass\n" for i in range(len(sig) + 2)) + _paths_source(params, "None")
+        impl.clear_caches()
+        ns = impl.new_module("verif_bindtie_cache", src).__dict__
+        insts = [ns["A"](), ns["A"]()]
+        hist = [rng.choice(PATHS) for _ in range(rng.choice([2, 2, 3, 4]))]
+        if hi % 3 == 0:
+            hist = rng.choice([["func", "bound"], ["bound", "func"], ["cm-func", "cm"], ["cm", "cm-func"],
+                               ["bound", "bound-other", "func"]])
+        objs = [_access(ns, insts, p_) for p_ in hist]
+        # key classes under == (what a table keyed by the callable distinguishes)
+        keys = []
+        for i, o in enumerate(objs):
+            keys.append(next((keys[j] for j in range(i) if objs[j] == o and hash(objs[j]) == hash(o)), i))
+
+        def own_sig(path):
+            first = [{"idx": 0, "name": "self", "kind": "PO" if any(q["kind"] == "PO" for q in sig) else "PK",
+                      "ann": None, "default": False}] if _has_first(path) else []
+            return first, sig
+
+        def coq_own(path):
+            first, s = own_sig(path)
+            ps = ["(Build_param %s %s false)" % (coq_nat(SELF), first[0]["kind"])] if first else []
+            ps += ["(Build_param %s %s true)" % (coq_nat(q["idx"]), q["kind"]) for q in s]
+            return coq_list(ps, "param")
+
+        desc = {"layer": "binding-cache", "def": f"def m(self, {params})", "history": hist, "error": None}
+        try:
+            tables = [binding._get_binding(o) for o in objs]          # the history: no cache clearing in between
+            q = rng.randrange(len(objs))
+            b = binding._get_binding(_access(ns, insts, hist[q]))      # asked again: the memoised answer
+            off = 0 if _has_first(hist[q]) else 1                      # T<i> is numbered along (self, p1, p2, ...)
+
+            def pidx(u):
+                name = getattr(getattr(u, "t", None), "__name__", "")
+                return int(name[1:]) - off if name.startswith("T") and name[1:].isdigit() else 0
+            names = [(SELF if k in ("self", "cls") else int(k[1:]), pidx(v)) for k, v in b.binding.items()
+                     if isinstance(k, str)]
+            idxs = [k for k in b.binding if isinstance(k, int)]
+            bad = [k for k in idxs if pidx(b.binding[k]) != k]
+            if bad or any(i < 0 for _, i in names):
+                desc["error"] = f"index keys not bound to their own parameter: {bad} (table of {hist[q]})"
+            vp = None if b.varpos is None else pidx(b.varpos)
+            vk = None if b.varkwd is None else pidx(b.varkwd)
+            desc.update(asked=hist[q], observed=repr((names, idxs, b.startpos, vp, vk)))
+            obs = c10.emit_bstate(names, idxs, b.startpos, vp, vk)
+        except Exception as e:
+            desc["error"] = repr(e)
+        cases.append(desc)
+        kd = "/".join(hist)
+        dist[kd] = dist.get(kd, 0) + 1
+        if desc["error"]:
+            coq.append(None)
+            continue
+        coq.append("(%s, %s, %s, %s)" % (
+            coq_list(["(%s, %s)" % (coq_nat(keys[i]), coq_own(hist[i])) for i in range(len(hist))], "(nat * sig)"),
+            coq_list([coq_nat(i) for i in range(len(hist))], "nat"), coq_nat(q), obs))
+    return cases, coq, dist
+
+
+H_SIGS = ["a: int, b: str = b'0', /, c: float = b'0', *r: int, k: decimal.Decimal = b'0', **kw: float",
+          "a: float, b: int = b'0'", "a: str, /, *r: fractions.Fraction", "a: int, *, k: str = b'0', **kw: decimal.Decimal",
+          "a: decimal.Decimal, b, c: int = b'0'"]
+
+
+def check_history(params, hist, apis):
+    """bind / wrap the access paths in order (one process, no cache clearing in between), then call each: every argument
+    must be converted by its own parameter (reference: inspect.Signature.bind + unmarshal(annotation) per parameter)"""
+    import inspect
+    from typelib import binding, unmarshals
+    names = [x.split(":")[0].split("=")[0].strip().lstrip("*") for x in params.split(",") if x.strip() not in ("/", "*")]
+    ret = "{" + ", ".join(f"'{n}': {n}" for n in names) + "}"
+    src = "import decimal, fractions\n" + _paths_source(params, ret)
+    impl.clear_caches()
+    ns = impl.new_module("verif_bindtie_hist", src).__dict__
+    insts = [ns["A"](), ns["A"]()]
+    P = inspect.Parameter
+    bound = []
+    for path, api in zip(hist, apis):
+        o = _access(ns, insts, path)
+        bound.append((path, api, o, getattr(binding, api)(o)))
+    fails = []
+    for step, (path, api, o, g) in enumerate(bound):
+        sig = inspect.signature(o)
+        npos = sum(1 for q in sig.parameters.values() if q.kind in (P.POSITIONAL_ONLY, P.POSITIONAL_OR_KEYWORD))
+        has_vp = any(q.kind is P.VAR_POSITIONAL for q in sig.parameters.values())
+        first = [insts[0]] if path == "func" else [ns["A"]] if path == "cm-func" else []
+        for nargs in sorted({1, min(2, npos - len(first)), npos - len(first) + (1 if has_vp else 0)}):
+            if nargs < 0:
+                continue
+            args = first + [str(j + 1).encode() for j in range(nargs)]
+            kwargs = {"k": b"9"} if "k" in sig.parameters and sig.parameters["k"].kind is P.KEYWORD_ONLY else {}
+            try:
+                ba = sig.bind(*args, **kwargs)
+            except TypeError:
+                continue
+            for n, v in list(ba.arguments.items()):
+                q = sig.parameters[n]
+                if q.annotation is P.empty:
+                    continue
+                ann = eval(q.annotation, ns) if isinstance(q.annotation, str) else q.annotation
+                if q.kind is P.VAR_POSITIONAL:
+                    ba.arguments[n] = tuple(unmarshals.unmarshal(ann, x) for x in v)
+                elif q.kind is P.VAR_KEYWORD:
+                    ba.arguments[n] = {k: unmarshals.unmarshal(ann, x) for k, x in v.items()}
+                else:
+                    ba.arguments[n] = unmarshals.unmarshal(ann, v)
+            expected = o(*ba.args, **ba.kwargs)
+            try:
+                got = g(*args, **kwargs)
+            except Exception as e:
+                got = repr(e)
+            if repr(got) != repr(expected):
+                fails.append({"symptom": "argument not converted by its own parameter after another access path of the same "
+                                         "def was bound first", "api": api, "form": path, "def": f"def m(self, {params})",
+                              "history": [f"{a}({p_})" for p_, a in zip(hist, apis)], "called": f"step {step}: {api}({path})",
+                              "args": [repr(a) for a in args[len(first):]], "kwargs": {k: repr(v) for k, v in kwargs.items()},
+                              "got": repr(got), "expected": repr(expected),
+                              "history_replay": {"params": params, "hist": list(hist), "apis": list(apis)}})
+    return fails
+
+
+def search_histories(run, broken) -> list:
+    import itertools
+    import random
+    rng = random.Random(run.seed + 13)
+    fails, evals, nh = [], 0, 0
+    pairs = [("func", "bound"), ("bound", "func"), ("bound", "bound-other"), ("bound", "bound-again"), ("cm", "cm-func"),
+             ("cm-func", "cm"), ("cm", "cm-inst"), ("sm", "sm-inst"), ("func", "sm"), ("cm", "bound")]
+    hists = [list(p_) for p_ in pairs]
+    for _ in range(run.budget(20, 200) * (2 if broken else 1)):
+        hists.append([rng.choice(PATHS) for _ in range(rng.choice([2, 3, 4]))])
+    for params in H_SIGS:
+        for hist in hists:
+            for apis in ([["bind"] * len(hist), ["wrap"] * len(hist)] + [[rng.choice(["bind", "wrap"]) for _ in hist]]):
+                fs = check_history(params, hist, apis)
+                nh += 1
+                evals += len(hist)
+                for f in fs:
+                    f["key"] = json.dumps([f["symptom"], sorted(set(hist))[:2], f["form"]])
+                fails += fs
+        if len(fails) > 60:
+            break
+    run.search_stats["oracle_access_paths"] = {
+        "evaluations": evals, "distinct_nontrivial": evals, "histories": nh, "failures": len(fails),
+        "rule": "one def as method / class method / static method of a class, reached as Cls.m, inst.m (same instance twice, "
+                "another instance), Cls.cm, inst.cm, the raw function of cm, Cls.sm, inst.sm; histories of 2-4 bind/wrap calls "
+                "in one process without cache clearing; then every bound callable is called with 1..n positionals; expected = "
+                "inspect.Signature.bind + unmarshal(annotation, argument) per parameter"}
+    fails.sort(key=lambda f: (len(f["history"]), len(f["def"]), len(f["args"])))
+    best = {}
+    for f in fails:
+        best.setdefault(f["key"], f)
+    return list(best.values())[:3]
+
+
 def search(run: lib.Run, broken) -> list:
     """(a) keyword names: see search_reserved.  (b) every class of a chain handed to wrap() once, in every generated
     order: constructing any class of the chain converts each argument of the __init__ it runs by that parameter's own
     annotation"""
     import itertools
     import random
-    out = search_reserved(run)
+    out = search_reserved(run) + search_histories(run, broken)
     rng = random.Random(run.seed + 11)
     n = run.budget(40, 300) * (3 if broken else 1)
     fails, evals = [], 0
@@ -1416,6 +1615,10 @@ def search(run: lib.Run, broken) -> list:
 
 
 def replay(payload) -> dict:
+    if payload.get("history_replay"):
+        r = payload["history_replay"]
+        fs = check_history(r["params"], r["hist"], r["apis"])
+        return {"fails": bool(fs), "failures": fs}
     if payload.get("reserved"):
         r = payload["reserved"]
         fs = check_reserved(r["source"], r["args"], r["kwargs"], r["api"])
